@@ -18,7 +18,8 @@ out = {
     "engines": [
         {"name": "vrt", "path": "rt/vrt", "kind_free_text": "controlled cooperative scheduler + preemption-bounded DFS schedule explorer + happens-before race monitor; code under test is rewritten by instr/ so that sync, atomic, channel, select, go and clock operations are scheduling points", "serves_properties": sorted(c for c in checks if checks[c].get('engines') and 'vrt' in checks[c]['engines'])},
         {"name": "gbfs", "path": "rt/vk/bfs.go", "kind_free_text": "explicit-state breadth-first search over event histories of real objects (successor = replay on a fresh instance + one event), dedup by canonical state", "serves_properties": sorted(c for c in checks if checks[c].get('engines') and 'gbfs' in checks[c]['engines'])},
-        {"name": "genum", "path": "harness/lib", "kind_free_text": "bounded-exhaustive enumeration of programs/inputs/configurations with reference oracles", "serves_properties": sorted(c for c in checks if checks[c].get('engines') and 'genum' in checks[c]['engines'])},
+        {"name": "genum", "path": "harness", "kind_free_text": "bounded-exhaustive enumeration of programs/inputs/configurations with reference oracles; each property's generator, reference model and shrinker live in harness/<ID>/ (compiled into the repository package under test through the overlay)", "serves_properties": sorted(c for c in checks if checks[c].get('engines') and 'genum' in checks[c]['engines'])},
+        {"name": "gfault", "path": "harness/C10", "kind_free_text": "fault enumeration: every truncation / byte / field / jump-operand mutation of compiler-emitted bytecode in disposable memory-limited workers (harness/C10), every callback fault position and every driver-call index through a fault-injecting database/sql driver (harness/C14)", "serves_properties": sorted(c for c in checks if checks[c].get('engines') and 'gfault' in checks[c]['engines'])},
         {"name": "instr", "path": "instr", "kind_free_text": "typed source-to-source instrumenter (go/packages) producing the overlay", "serves_properties": sorted(c for c in checks if checks[c].get('engines') and 'vrt' in checks[c]['engines'])},
     ],
     "checks": [],
